@@ -59,6 +59,22 @@ impl From<Str2> for Value {
     }
 }
 
+/// the same 2 symbolic ASCII bytes held as a heap string (`Arc<str>`), plain or marked safe
+struct Str2Arc([u8; 2], bool);
+impl Sym for Str2Arc {
+    fn sym() -> Self {
+        let b: [u8; 2] = kani::any();
+        kani::assume(b[0] < 0x80 && b[1] < 0x80);
+        Str2Arc(b, kani::any())
+    }
+}
+impl From<Str2Arc> for Value {
+    fn from(s: Str2Arc) -> Value {
+        let st = unsafe { core::str::from_utf8_unchecked(&s.0[..]) };
+        Value(ValueRepr::String(Arc::from(st), if s.1 { StringType::Safe } else { StringType::Normal }))
+    }
+}
+
 /// An allocation-free iterator over the integers i..n (as I64 values) with an exact size hint.
 pub(crate) struct CountIter {
     pub i: usize,
@@ -162,6 +178,7 @@ pair_harness!(c07_pair_undef_none, UndefV, NoneV, true); // tier=thorough cap=30
 pair_harness!(c07_pair_bool_bool, bool, bool, true);
 pair_harness!(c07_pair_none_i64, NoneV, i64, true); // tier=thorough cap=3000
 pair_harness!(c07_pair_str_str, Str2, Str2, true);
+pair_harness!(c07_pair_smallstr_arcstr, Str2, Str2Arc, true);
 pair_harness!(c07_pair_str_i64, Str2, i64, true); // tier=thorough cap=3000
 pair_harness!(c07_pair_i128_u128, i128, u128, false); // tier=thorough cap=3000
 pair_harness!(c07_pair_i128_f64, i128, f64, false); // tier=thorough cap=3000
